@@ -24,14 +24,15 @@ def run_vector(w, i, v):
     try:
         d = Update.parse(0, ref_msg[19:], True)
         txt = d['attr'].get(sub) if d.get('attr') else None
-        if d.get('sub_error') or not isinstance(txt, list) or len(txt) != 1 or not isinstance(txt[0], str):
+        want = len(v['u']['o']) // 8 if v['u']['name'] == 'multi' else 1
+        if d.get('sub_error') or not isinstance(txt, list) or len(txt) != want or not all(isinstance(t, str) for t in txt):
             line['diff'] = 'decoder gave %r (sub_error=%r)' % (txt, d.get('sub_error'))
             return line
     except Exception as e:
         line['diff'] = 'decoder raised %r' % (e,)
         return line
     line['decoded'] = True
-    line['text'] = txt[0]
+    line['text'] = ' '.join(txt)
     body = {'attr': {'1': 0, '2': [[2, [65001]]], '3': '10.0.0.1', str(sub): txt}, 'nlri': ['192.168.7.0/24']}
     r = w.rest('POST', 'json_to_bin', body=body)
     line['status'] = r['status']
